@@ -45,6 +45,8 @@ fn main() {
         "c04-record" => c04::record(rest),
         "c04-why" => c04::why(rest),
         "c05-replay" => c05::replay(rest),
+        "c05-sources" => c05::sources(rest),
+        "c05-libbuild" => c05::libbuild(rest),
         "c05-record" => c05::record(rest),
         "c11-record" => c11::record(rest),
         "c06-run" => c06::run(rest),
